@@ -371,6 +371,88 @@ def check_quoted_not_renamed(prog, R):
     R.floor("R05.g", "BodyForm::Quoted constructions in the renamer", n, 1)
 
 
+ORDER_OPS = ("cmp", "partial_cmp", "lt", "le", "gt", "ge", "max", "min", "max_by", "min_by", "max_by_key", "min_by_key",
+             "sort", "sort_by", "sort_by_key", "sort_unstable", "sort_unstable_by", "sort_unstable_by_key", "sort_by_cached_key",
+             "binary_search", "binary_search_by", "binary_search_by_key", "partition_point", "is_sorted")
+
+
+def check_no_order_on_generated_names(prog, R, carrying):
+    """R05.i: a name field that can hold a gensym result (`x_$_N`, N = the process-wide counter) is never ORDERED: comparing
+    two such names with < / cmp / a sort puts `cse_$_1000` before `cse_$_999`, so whatever is laid out in that order
+    depends on how many names earlier compilations in the process consumed.  Equality tests are fine.  Atom payloads
+    (SExp.1) are not tracked - any atom can be a user name - only the fields that exist to name bindings and functions."""
+    fields = {(adt, fld) for (adt, fld) in carrying if not adt.endswith("sexp::SExp")}
+    if not fields:
+        return
+
+    def reads_carrier(f, fl, nodes):
+        for _, _, st in f.stmts():
+            if fl.node(st["pl"]) not in nodes:
+                continue
+            for o in rv_operands(st["rv"]):
+                pl = op_place(o)
+                for e in (pl["p"] if pl else []):
+                    if isinstance(e, dict) and "f" in e and e.get("of"):
+                        for adt, fld in fields:
+                            if str(e["f"]) == str(fld) and (e["of"] == adt or e["of"].startswith(adt + "::")):
+                                return "%s.%s" % (adt.rsplit("::", 1)[-1], fld)
+        return None
+    flows = {}
+
+    def flow(f):
+        if f.path not in flows:
+            flows[f.path] = Flow(f)
+        return flows[f.path]
+    # functions returning a value read from a carrier field (one level of helpers is enough for accessor functions)
+    carrier_fns = {}
+    for f in prog.fns.values():
+        if not f.path.startswith("compiler::") or f.kind == "Closure":
+            continue
+        rty = f.local_ty(0)
+        if "u8" not in rty:
+            continue
+        fl = flow(f)
+        hit = reads_carrier(f, fl, fl.back_pure([0]))
+        if hit:
+            carrier_fns[f.path] = hit
+    nsites = 0
+    for f in sorted(prog.fns.values(), key=lambda f: f.path):
+        if not f.path.startswith("compiler::"):
+            continue
+        fl = None
+        for bb, t in f.calls():
+            nm = (t.get("callee") or callee_of(t) or "").rsplit("::", 1)[-1]
+            if nm not in ORDER_OPS or not t["args"]:
+                continue
+            tys = " ".join(t.get("arg_tys") or []) + " " + " ".join(t.get("gargs") or [])
+            if "u8" not in tys and "Binding" not in tys and "DefunData" not in tys:
+                continue
+            fl = fl or flow(f)
+            hit = None
+            for a in t["args"]:
+                l = op_local(a)
+                if l is None:
+                    continue
+                sl = fl.back_pure([l], stop=lambda x: 0 < x <= f.argc)
+                hit = reads_carrier(f, fl, sl)
+                if not hit:
+                    for x in sl:
+                        for _, t2 in fl.call_defs.get(x, []):
+                            if (callee_of(t2) or "") in carrier_fns:
+                                hit = carrier_fns[callee_of(t2)] + " (through %s)" % callee_of(t2).rsplit("::", 1)[-1]
+                if hit:
+                    break
+            nsites += 1
+            if hit:
+                R.viol("R05.i", "R05.i|%s|order-on-generated-name|%s" % (f.root, nm), f.loc(bb),
+                       "%s orders values by `%s` (%s), a field that can hold a generated name `x_$_N`: N is the process-wide "
+                       "fresh-name counter, and byte-wise order of such names changes when N crosses a power of ten (`cse_$_1000` < "
+                       "`cse_$_999`), so the layout produced in that order depends on what was compiled before in the process" % (
+                           f.path, hit, nm), fn=f.path)
+    R.ob("R05.i", "R05.i|no-order-on-generated-names", "compiler::", "auto: %d ordering operations over byte strings / binding records "
+         "under compiler:: examined, none orders a field that can hold a generated name (%s)" % (nsites, sorted("%s.%s" % k for k in fields)))
+
+
 def check_generated_names_in_symbols(prog, R):
     """The reported symbol table maps code hashes to function names.  If a name produced by gensym (suffix = value of
     the process-wide counter) can be stored as a function's name and that name is handed to add_defun, the symbol
@@ -432,6 +514,7 @@ def check_generated_names_in_symbols(prog, R):
             if any(of == adt or of.startswith(adt + "::") or adt.endswith(of) for of, ff in flds if ff == fld):
                 sinks.append((f, bb, adt, fld, where))
     R.counts["fields that can hold a generated name"] = sorted("%s.%s" % k for k in carrying)
+    check_no_order_on_generated_names(prog, R, carrying)
     if not sinks:
         R.ob("R05.h", "R05.h|no-generated-names-in-symbols", "compiler::comptypes::PrimaryCodegen::add_defun",
              "auto: no function name handed to add_defun is read from a field that can hold a gensym result")
